@@ -59,6 +59,21 @@ func getPoolFacts(c *Ctx, rule string, vf *vmFacts) *poolFacts {
 				stored[k] = true
 			}
 			eachInstr(g, func(ins ssa.Instruction) {
+				// VM.Abort handed on as a function value (v.each((*VM).Abort)): the
+				// method expression is a synthetic thunk that calls it
+				for _, op := range ins.Operands(nil) {
+					if fv, ok := (*op).(*ssa.Function); ok && abortM != nil {
+						if fv == abortM {
+							cd.callsAbort = true
+						} else if fv.Synthetic != "" && len(fv.Blocks) > 0 {
+							eachInstr(fv, func(x ssa.Instruction) {
+								if xc, ok := x.(ssa.CallInstruction); ok && xc.Common().StaticCallee() == abortM {
+									cd.callsAbort = true
+								}
+							})
+						}
+					}
+				}
 				ci, ok := ins.(ssa.CallInstruction)
 				if !ok {
 					return
@@ -669,7 +684,7 @@ func propC09(c *Ctx) {
 			fmt.Sprintf("a path through Abort returns without storing the flag (%v) or without aborting the child pool (%v): an Abort issued after an earlier one never reaches a child VM started in between", !ok1, !ok2))
 		// pool abort ranges over vms and calls Abort on the key
 		ranged := false
-		eachInstr(pf.abort, func(ins ssa.Instruction) {
+		eachInstrDeep(pf.abort, 2, func(ins ssa.Instruction) {
 			if rg, ok := ins.(*ssa.Range); ok {
 				if u, ok := rg.X.(*ssa.UnOp); ok {
 					if _, ok := isFieldAddrOf(u.X, modPath, "vmPool", pf.fVMs); ok {
@@ -982,6 +997,115 @@ func poolLockedAt(l *Loaded, pf *poolFacts, fn *ssa.Function, base ssa.Value, at
 	})
 	if locked || depth >= 3 {
 		return locked
+	}
+	// a function literal that captures the pool and is handed, at its only use,
+	// to a method of that same pool which calls it only while holding the lock
+	// (v.each(func(vm *VM) { delete(v.vms, vm) }))
+	freeOf := func(v ssa.Value) (*ssa.FreeVar, bool) {
+		if fv, ok := v.(*ssa.FreeVar); ok {
+			return fv, true
+		}
+		if ld, ok := v.(*ssa.UnOp); ok && ld.Op == token.MUL { // the variable is captured by reference
+			if fv, ok := ld.X.(*ssa.FreeVar); ok {
+				return fv, true
+			}
+		}
+		return nil, false
+	}
+	if fv, isFree := freeOf(base); isFree && fn.Parent() != nil {
+		idx := -1
+		for k, q := range fn.FreeVars {
+			if q == fv {
+				idx = k
+			}
+		}
+		okAll, uses := idx >= 0, 0
+		eachInstr(fn.Parent(), func(ins ssa.Instruction) {
+			mc, ok := ins.(*ssa.MakeClosure)
+			if !ok || mc.Fn != ssa.Value(fn) {
+				return
+			}
+			bound := mc.Bindings[idx]
+			if mc.Referrers() == nil {
+				okAll = false
+				return
+			}
+			for _, r := range *mc.Referrers() {
+				if _, isDbg := r.(*ssa.DebugRef); isDbg {
+					continue
+				}
+				uses++
+				cl, ok := r.(*ssa.Call)
+				if !ok {
+					okAll = false
+					continue
+				}
+				g := cl.Call.StaticCallee()
+				if g == nil || len(g.Blocks) == 0 || len(cl.Call.Args) == 0 || len(g.Params) != len(cl.Call.Args) {
+					okAll = false
+					continue
+				}
+				// the closure is argument j; the receiver (argument 0) is the captured pool
+				j := -1
+				for k, a := range cl.Call.Args {
+					if a == ssa.Value(mc) {
+						j = k
+					}
+				}
+				recvIsPool := cl.Call.Args[0] == bound || sameMem(cl.Call.Args[0], bound)
+				if ld, ok := cl.Call.Args[0].(*ssa.UnOp); ok && ld.Op == token.MUL && ld.X == bound {
+					recvIsPool = true // the receiver is read from the captured cell
+				}
+				if ld, ok := bound.(*ssa.UnOp); ok && !recvIsPool {
+					// the captured variable is a cell holding the receiver
+					if al, ok := ld.X.(*ssa.Alloc); ok && al.Referrers() != nil {
+						for _, rr := range *al.Referrers() {
+							if st, ok := rr.(*ssa.Store); ok && st.Val == cl.Call.Args[0] {
+								recvIsPool = true
+							}
+						}
+					}
+				}
+				if al, ok := bound.(*ssa.Alloc); ok && !recvIsPool && al.Referrers() != nil {
+					for _, rr := range *al.Referrers() {
+						if st, ok := rr.(*ssa.Store); ok && st.Val == cl.Call.Args[0] {
+							recvIsPool = true
+						}
+					}
+				}
+				if j <= 0 || !recvIsPool {
+					okAll = false
+					continue
+				}
+				// every dynamic call of parameter j inside g happens under g's receiver's lock
+				calls := 0
+				eachInstr(g, func(x ssa.Instruction) {
+					ci, ok := x.(ssa.CallInstruction)
+					if !ok || ci.Common().Value != ssa.Value(g.Params[j]) {
+						return
+					}
+					calls++
+					if !poolLockedAt(l, pf, g, g.Params[0], x, depth+1) {
+						okAll = false
+					}
+				})
+				// the parameter must not escape g in any other way
+				if g.Params[j].Referrers() != nil {
+					for _, pr := range *g.Params[j].Referrers() {
+						if _, isDbg := pr.(*ssa.DebugRef); isDbg {
+							continue
+						}
+						if ci, ok := pr.(ssa.CallInstruction); !ok || ci.Common().Value != ssa.Value(g.Params[j]) {
+							okAll = false
+						}
+					}
+				}
+				if calls == 0 {
+					okAll = false
+				}
+			}
+		})
+		return okAll && uses > 0
 	}
 	p, ok := base.(*ssa.Parameter)
 	if !ok || fn.Parent() != nil || l.AddressTaken(fn) || l.mayBeInvoked(fn) {
